@@ -33,6 +33,42 @@ class PtrV:
         return f"&{self.obj}+{self.off}"
 
 
+class FpV:
+    """a float / double known to hold an INTEGRAL value: t is that mathematical integer (conversions of decimal integer
+    strings and of integers are the only floating-point producers in the table; anything else is Unsupported)"""
+    __slots__ = ('bits', 't')
+
+    def __init__(self, bits, t):
+        self.bits, self.t = bits, t
+
+    def __repr__(self):
+        return f"fp{self.bits}:{self.t}"
+
+
+def round_to_fp(v, bits):
+    """the IEEE-754 binary32/binary64 value nearest to the integer v (round to nearest, ties to even), |v| <= 2^64"""
+    p = 53 if bits == 64 else 24
+    if is_c(v):
+        a = abs(v)
+        if a < (1 << p):
+            return v
+        k = a.bit_length() - 1
+        u = 1 << (k - p + 1)
+        q, r = divmod(a, u)
+        if 2 * r > u or (2 * r == u and q % 2 == 1):
+            q += 1
+        return (q * u) if v >= 0 else -(q * u)
+    a = z3.If(v >= 0, v, -v)
+    res = a
+    for k in range(64, p - 1, -1):
+        u = 1 << (k - p + 1)
+        q, r = a / u, a % u
+        up = z3.Or(2 * r > u, z3.And(2 * r == u, q % 2 == 1))
+        res_k = z3.If(up, q + 1, q) * u
+        res = z3.If(a >= (1 << k), res_k, res) if k == 64 else z3.If(z3.And(a >= (1 << k), a < (1 << (k + 1))), res_k, res)
+    return z3.If(v >= 0, res, -res)
+
+
 UNDEF = object()
 
 
@@ -82,7 +118,7 @@ class Func:
         self.order = []
 
 
-TY = r'(?:i\d+\*{0,3}|\[\d+ x i\d+\]\*{0,2}|void|i8\*\*\*)'
+TY = r'(?:i\d+\*{0,3}|\[\d+ x i\d+\]\*{0,2}|void|i8\*\*\*|double|float)'
 
 
 def parse_module(text):
@@ -222,6 +258,21 @@ class Exec:
             if tok.startswith('@'):
                 return PtrV(tok, 0)
             return path.env[tok]
+        if ty in ('double', 'float'):
+            bits = 64 if ty == 'double' else 32
+            if tok.startswith('%'):
+                v = path.env[tok]
+                if not isinstance(v, FpV) or v.bits != bits:
+                    raise Unsupported(f"type mismatch for {tok}: {v} as {ty}")
+                return v
+            try:
+                import struct
+                x = struct.unpack('>d', bytes.fromhex(tok[2:].rjust(16, '0')))[0] if tok.startswith('0x') else float(tok)
+            except Exception:
+                raise Unsupported(f"floating-point constant {tok}")
+            if x != x or x in (float('inf'), float('-inf')) or x != int(x):
+                raise Unsupported(f"non-integral floating-point constant {tok}")
+            return FpV(bits, int(x))
         w = int(ty[1:])
         if tok in ('true', 'false'):
             return IntV(1, -1 if tok == 'true' else 0)
@@ -551,6 +602,26 @@ class Exec:
                 path.env[dst] = IntV(w2, a.t)
             else:
                 path.env[dst] = IntV(w2, uns(a.t, a.w))
+            return
+        if op in ('sitofp', 'uitofp'):
+            mm = re.match(rf'{op} (i\d+) (.+?) to (double|float)$', rhs)
+            a = self.val(path, mm.group(1), mm.group(2))
+            bits = 64 if mm.group(3) == 'double' else 32
+            path.env[dst] = FpV(bits, round_to_fp(a.t if op == 'sitofp' else uns(a.t, a.w), bits))
+            return
+        if op in ('fptosi', 'fptoui'):
+            mm = re.match(rf'{op} (double|float) (.+?) to (i\d+)$', rhs)
+            a = self.val(path, mm.group(1), mm.group(2))
+            w2 = int(mm.group(3)[1:])
+            fits = in_range(a.t, w2) if op == 'fptosi' else ((0 <= a.t < (1 << w2)) if is_c(a.t) else z3.And(a.t >= 0, a.t < (1 << w2)))
+            self.oblige(path, fits, f"`{ins}`: the value does not fit the integer type (undefined behaviour)")
+            path.env[dst] = IntV(w2, wrap(a.t, w2))
+            return
+        if op in ('fpext', 'fptrunc'):
+            mm = re.match(rf'{op} (double|float) (.+?) to (double|float)$', rhs)
+            a = self.val(path, mm.group(1), mm.group(2))
+            bits = 64 if mm.group(3) == 'double' else 32
+            path.env[dst] = FpV(bits, a.t if op == 'fpext' else round_to_fp(a.t, bits))
             return
         if op == 'ptrtoint':
             mm = re.match(r'ptrtoint i8\* (%[\w.]+) to i64$', rhs)
